@@ -499,9 +499,33 @@ def r17_9(ctx):
         ctx.bad("R17.9", rn.module, rn.qual, "if mbox.name.lower() != 'inbox': _helper_rename_folder else _helper_rename_inbox", "RENAME no longer takes the inbox branch exactly for the inbox: RENAME INBOX renames the inbox folder away (or an ordinary mailbox is treated as the inbox)", rn.node.lineno)
 
 
+def r17_10(ctx):
+    """Mailbox names are case-sensitive; only the name INBOX is not (R17.5 / R17.8 deal with that on the pattern side).  The
+    REGEXP function LIST's query uses must therefore match case-sensitively: a blanket IGNORECASE makes `LIST "" work` return
+    `Work`, and `LIST "Work/" %` the children of `work`."""
+    p = ctx.p
+    fi = p.func("db.regexp")
+    ctx.analysed(fi)
+    bad = []
+    for n in body_walk(fi.node):
+        if isinstance(n, ast.Call) and norm(n.func) in ("re.compile", "re.match", "re.search", "re.fullmatch"):
+            flags = list(n.args[1:] if norm(n.func) == "re.compile" else n.args[2:]) + [k.value for k in n.keywords if k.arg == "flags"]
+            if any("IGNORECASE" in norm(f) or norm(f) == "re.I" for f in flags):
+                bad.append(n)
+        if isinstance(n, ast.Call) and call_name(n) in ("lower", "upper", "casefold") and isinstance(call_recv(n), ast.Name) and call_recv(n).id in {a.arg for a in fi.node.args.args}:
+            bad.append(n)
+        if isinstance(n, ast.Constant) and isinstance(n.value, str) and "(?i" in n.value:
+            bad.append(n)
+    if bad:
+        ctx.bad("R17.10", fi.module, fi.qual, norm(bad[0], 80), "the REGEXP function behind LIST/LSUB matches case-insensitively: mailboxes whose names differ only in case are listed for each other's patterns and references", bad[0].lineno)
+    else:
+        ctx.ok("R17.10", where(fi), "REGEXP matches names case-sensitively (INBOX is folded on the pattern side)")
+
+
 def run(ctx):
     ctx.do(r17_8)
     ctx.do(r17_9)
+    ctx.do(r17_10)
     ctx.do(r17_1)
     ctx.do(r17_2)
     ctx.do(r17_4)
